@@ -79,7 +79,7 @@ def native_run(binary, model, scratch, timeout=30):
     fd, p = tempfile.mkstemp(dir=scratch, suffix='.in')
     os.close(fd)
     write_model(p, model)
-    env = dict(os.environ, SYM_INPUT=p, ASAN_OPTIONS='detect_leaks=0:abort_on_error=0', UBSAN_OPTIONS='print_stacktrace=1')
+    env = dict(os.environ, SYM_INPUT=p, ASAN_OPTIONS='detect_leaks=0:abort_on_error=0:allocator_may_return_null=1', UBSAN_OPTIONS='print_stacktrace=1')
     try:
         r = subprocess.run([binary], capture_output=True, text=True, env=env, timeout=timeout, errors='replace')
         out, errt, rc = r.stdout, r.stderr, r.returncode
